@@ -26,7 +26,8 @@ STANDS = ['bridgepoint.interpret.run_function', 'bridgepoint.interpret.ActionWal
           'bridgepoint.interpret.ActionWalker.accept_BlockNode', 'bridgepoint.interpret.SymbolTable']
 NOTE = ('select any/one = first instance in creation / relate order and for-each order are taken from C09/C02; '
         'programs the reference rejects (empty or deleted handle used, multiplicity exceeded, delete of a linked '
-        'instance, > 600 steps) are outside the property and skipped')
+        'instance, > 600 steps) are outside the property and skipped; relationship phrases are only written for the reflexive R3 '
+        '(a phrase on a non-reflexive association is not clearly demanded by the property; observed: pyxtuml rejects it)')
 
 
 def soft_expired(ctx, share=0.8):
@@ -45,7 +46,8 @@ def run_case(ctx, tree, pop, item_name, key=None, clause_of=None):
     for clause, observed, required in res:
         if clause_of:
             clause = clause_of(clause)
-        ctx.check(False, clause=clause, input=dict(tree=tree, oal=text, population=pop, population_rows=G.POPULATIONS[pop]),
+        ctx.check(False, clause=clause, input=dict(tree=tree, oal=text, population=pop if not isinstance(pop, dict) else 'random',
+                                                   population_rows=G.population(pop)),
                   observed=observed, required=required)
     return True
 
@@ -92,7 +94,8 @@ def expressions(ctx):
     atoms = _expression_space()
     d1 = _apply(atoms)
     cases = [e for ty in ('int', 'str', 'bool') for e in atoms[ty] + d1[ty]]
-    ctx.note(NOTE)
+    if ctx.shard == 0:
+        ctx.note(NOTE)
     n = 0
     for e in cases:
         n += 1
@@ -122,7 +125,8 @@ def expressions(ctx):
         run_case(ctx, EXPR_PRELUDE + [['return', e]], 'rich', 'expressions')
         done += 1
     ctx.exhausted = False       # depth 1 is exhaustive, depth 2 is sampled
-    ctx.note('depth 1: %d expressions enumerated exhaustively; depth 2 sampled from %s operand expressions per type' % (len(cases), sizes))
+    if ctx.shard == 0:
+        ctx.note('depth 1: %d expressions enumerated exhaustively; depth 2 sampled from %s operand expressions per type' % (len(cases), sizes))
 
 
 # ------------------------------------------------------------------------------------------------- single statements
@@ -136,7 +140,7 @@ def _build_single(prof):
     return build
 
 
-@item('single-statements', stands_in_for=STANDS, shards=2, weight=1,
+@item('single-statements', stands_in_for=STANDS, shards=3, weight=1,
       bound='prelude (a1,b1,l2,as1 selected; a2,b2,l1 created; x=1) + every single statement the generator can form with atomic '
             'expressions: assignment to variables/attributes, create, delete, relate/unrelate over R1..R4 in both argument orders '
             '(phrases, using), select any/many from instances (with/without where), select one/any/many related by chains of '
@@ -144,7 +148,8 @@ def _build_single(prof):
 def single_statements(ctx):
     import random
     prof = dict(depth=0, ints=[0, 2], strs=['x'], chain=1 if ctx.quick else 2, elifs=[0], where=0.5)
-    ctx.note(NOTE)
+    if ctx.shard == 0:
+        ctx.note(NOTE)
     trees = list(G.enumerate_all(_build_single(prof)))
     random.Random(4).shuffle(trees)          # fixed order, independent of the seed: the space is enumerated completely
     for n, tree in enumerate(trees):
@@ -188,7 +193,8 @@ def _build_control(budget):
             'in total (exhaustive: 15982 programs); thorough adds samples of the 4-statement space (754013 programs); population rich')
 def control_flow(ctx):
     import random
-    ctx.note(NOTE)
+    if ctx.shard == 0:
+        ctx.note(NOTE)
     trees = list(G.enumerate_all(_build_control(3)))
     random.Random(4).shuffle(trees)          # fixed order, independent of the seed: the space is enumerated completely
     for n, tree in enumerate(trees):
@@ -207,22 +213,25 @@ def control_flow(ctx):
         tree = build(G.RandomChooser(ctx.rng))
         run_case(ctx, tree, 'rich', 'control-flow')
         extra += 1
-    ctx.note('3-statement space enumerated completely; %d samples of the 4-statement space in this shard' % extra)
+    if ctx.shard == 0:
+        ctx.note('3-statement space enumerated completely; %d samples of the 4-statement space in shard 0' % extra)
 
 
 # ------------------------------------------------------------------------------------------------- sampled programs
-@item('programs-sampled', stands_in_for=STANDS, shards=5, weight=3,
+@item('programs-sampled', stands_in_for=STANDS, shards=4, weight=3,
       bound='random type-correct programs: random prelude + up to 3 statements / expression depth 2 (quick) or up to 6 statements / '
             'expression depth 3 (thorough), arbitrary nesting of if/elif/else, while, for each, where clauses, chains up to 2 (quick) / 3 steps; '
-            'each on the populations rich, sparse, empty; sampled until 80% of the time budget')
+            'each on the populations rich, sparse, empty and one random population (0-3 A, 0-3 B, 0-2 L, random links within the multiplicities); '
+            'sampled until 80% of the time budget')
 def programs_sampled(ctx):
-    ctx.note(NOTE)
+    if ctx.shard == 0:
+        ctx.note(NOTE)
     prof = dict(depth=2, chain=2) if ctx.quick else dict(depth=3, chain=3)
     max_statements = 3 if ctx.quick else 6
     while not soft_expired(ctx):
         g = G.Gen(G.RandomChooser(ctx.rng), prof)
         tree = g.program(ctx.rng.randint(1, max_statements))
-        for pop in G.POP_NAMES:
+        for pop in G.POP_NAMES + [G.random_population(ctx.rng)]:
             run_case(ctx, tree, pop, 'programs-sampled')
     ctx.exhausted = False
 
@@ -262,7 +271,7 @@ def division_modulo(ctx):
 # ------------------------------------------------------------------------------------------------- replay
 def replay(item_name, input):
     """Re-run one recorded program (its tree, printed afresh and compared with the recorded text) on its population."""
-    tree, pop = input['tree'], input['population']
+    tree, pop = input['tree'], input.get('population_rows') or input['population']
     res = G.check_program(tree, pop, text=input.get('oal'))
     if res is None:
         return [dict(clause='replay', observed='the reference evaluator rejects the recorded program', required='a program inside the property')]
